@@ -205,7 +205,9 @@ pub fn run(case: &Value) -> Value {
                 msg.push_str(&s.to_string());
                 src = s.source();
             }
-            return json!({ "error": "config", "message": msg.replace(root.as_str(), "<root>") });
+            let kind: String = format!("{:?}", e.kind()).chars().take(1500).collect();
+            return json!({ "error": "config", "message": msg.replace(root.as_str(), "<root>"),
+                           "kind": kind.replace(root.as_str(), "<root>") });
         }
     };
     let host = case["host"].as_str().expect("host");
